@@ -109,7 +109,8 @@ def _size_delta(prog, lf: ListFacts, f: Func) -> Optional[int]:
 
 
 def _target_end(lf: ListFacts, f: Func) -> Optional[str]:
-    """the list end that a method stores its node argument / new node into on its main path"""
+    """the list end that a method stores its node argument / new node into (stores made only because the list was empty - under
+    `self.<end> is None` - do not count: there both ends receive the node)"""
     ends = []
     params = set(f.params[1:])
     new_nodes = set()
@@ -117,11 +118,25 @@ def _target_end(lf: ListFacts, f: Func) -> Optional[str]:
         if isinstance(n, ast.Assign) and len(n.targets) == 1 and isinstance(n.targets[0], ast.Name) \
                 and isinstance(n.value, ast.Call) and src(n.value.func) == lf.node.name:
             new_nodes.add(n.targets[0].id)
-    for st in f.node.body:
-        if isinstance(st, ast.Assign) and len(st.targets) == 1 and isinstance(st.value, ast.Name) \
-                and st.value.id in params | new_nodes:
-            d = dotted(st.targets[0])
-            if d and len(d) == 2 and d[0] == f.self_name and d[1] in lf.ends:
+
+    def only_when_empty(st) -> bool:
+        ch, par = st, getattr(st, "_parent", None)
+        while par is not None and par is not f.node:
+            if isinstance(par, ast.If) and isinstance(par.test, ast.Compare) and len(par.test.ops) == 1 \
+                    and isinstance(par.test.comparators[0], ast.Constant) and par.test.comparators[0].value is None:
+                d = dotted(par.test.left)
+                if d and len(d) == 2 and d[0] == f.self_name and d[1] in lf.ends:
+                    is_none = isinstance(par.test.ops[0], ast.Is)
+                    in_body = ch in par.body
+                    if in_body == is_none:
+                        return True
+            ch, par = par, getattr(par, "_parent", None)
+        return False
+    from ..util import iter_stores
+    for t, v, st in iter_stores(f.node):
+        if isinstance(v, ast.Name) and v.id in params | new_nodes:
+            d = dotted(t)
+            if d and len(d) == 2 and d[0] == f.self_name and d[1] in lf.ends and not only_when_empty(st):
                 ends.append(d[1])
     return ends[0] if len(set(ends)) == 1 else None
 
@@ -329,6 +344,7 @@ class _Coherence(Client):
         self.problems: List[str] = []
         self.evicted_key_exprs: List[ast.expr] = []
         self.victim_exprs: List[ast.expr] = []
+        self._flows = {}
 
     def should_inline(self, func: Func, call, ctx: Ctx):
         # list methods are summarised by their size delta; own helpers are inlined
@@ -356,6 +372,21 @@ class _Coherence(Client):
                 if present is False:
                     return ((), (state,)) if isinstance(op, ast.In) else ((state,), ())
                 return t, fl
+            # node = self.<dict>.get(k);  if node is None / is not None   (the stored nodes are never None)
+            if isinstance(op, (ast.Is, ast.IsNot)) and isinstance(b, ast.Constant) and b.value is None and isinstance(a, ast.Name):
+                from ..flow import Flow
+                fl = self._flows.setdefault(id(f.node), Flow(f.node))
+                defs = list(fl.defs_of(a))
+                if defs and all(isinstance(d_.value, ast.Call) and isinstance(d_.value.func, ast.Attribute) and d_.value.func.attr == "get"
+                                and cf.is_dict(d_.value.func.value, f) and d_.value.args and isinstance(d_.value.args[0], ast.Name)
+                                and d_.value.args[0].id == self.key and len(d_.value.args) == 1 for d_ in defs):
+                    yes = (order, True, dd, dl)
+                    no = (order, False, dd, dl)
+                    if present is True:
+                        return ((), (state,)) if isinstance(op, ast.Is) else ((state,), ())
+                    if present is False:
+                        return ((state,), ()) if isinstance(op, ast.Is) else ((), (state,))
+                    return ((no,), (yes,)) if isinstance(op, ast.Is) else ((yes,), (no,))
             # len(dict) <op> capacity
             la, lb = cf._is_len_dict(a, f), cf._is_len_dict(b, f)
             ca = dotted(a) == (f.self_name, cf.cap_field)
